@@ -10,7 +10,7 @@ that prefix is refused.  The follow-up operations index vectors and buffers thro
 that return an explicit `Fault`; "safe to use" is the theorem that no `Fault` is reachable on a loaded object.
 -/
 namespace Op2.Prt
-open Op2 Op2.Parser
+open Op2 Op2.Parser Op2.Parser.PrtInv
 
 /-- loading looks at the consumed prefix only: whatever follows it (other data, the end of the buffer) cannot change the
     outcome, i.e. the loader never reads past what `Reader::Read` delivered -/
